@@ -45,6 +45,9 @@ type scOp struct {
 	C   int    `json:"c"`
 	Op  string `json:"op"`
 	Key int    `json:"key,omitempty"`
+	// Scribble: the caller, who owns what a call returned to it, overwrites the returned memory (up to its capacity) once
+	// it has looked at it. Results are copies: nothing the object holds may change by that.
+	Scribble bool `json:"scribble,omitempty"`
 }
 
 type schedEngine struct{ variant string } // "", "instr", "race"
@@ -181,7 +184,7 @@ func (e *schedEngine) Gen(seed uint64, tier string, run int) *Trace {
 				cl = r.Intn(c.Clients)
 			}
 		}
-		ops = append(ops, scOp{C: cl, Op: Pick(r, enabled)})
+		ops = append(ops, scOp{C: cl, Op: Pick(r, enabled), Scribble: r.Chance(1, 4)})
 	}
 	var sw []Switch
 	if c.Mode == "inter" {
@@ -227,7 +230,16 @@ type scHeld struct {
 	copy []byte
 }
 
-func (o *scObject) hold(what string, b []byte) []byte {
+func (o *scObject) hold(what string, b []byte, scribble ...bool) []byte {
+	if len(scribble) > 0 && scribble[0] {
+		// the caller keeps a copy and reuses the memory it was given
+		c := append([]byte(nil), b...)
+		full := b[:cap(b)]
+		for i := range full {
+			full[i] = 0xEE
+		}
+		return c
+	}
 	o.hmu.Lock()
 	o.held = append(o.held, scHeld{what, b, append([]byte(nil), b...)})
 	o.hmu.Unlock()
@@ -323,13 +335,13 @@ func (e *schedEngine) build(c scCfg, x *X, plane *Plane) (mk func() *scObject) {
 			o = &scObject{dumpRoot: bin, do: func(op scOp) []byte {
 				switch op.Op {
 				case "Hash":
-					return scResult(o.hold("Hash(SHA256)", bin.Hash(crypto.SHA256)), nil)
+					return scResult(o.hold("Hash(SHA256)", bin.Hash(crypto.SHA256), op.Scribble), nil)
 				case "HashSHA1":
-					return scResult(o.hold("Hash(SHA1)", bin.Hash(crypto.SHA1)), nil)
+					return scResult(o.hold("Hash(SHA1)", bin.Hash(crypto.SHA1), op.Scribble), nil)
 				case "HashSHA512":
-					return scResult(o.hold("Hash(SHA512)", bin.Hash(crypto.SHA512)), nil)
+					return scResult(o.hold("Hash(SHA512)", bin.Hash(crypto.SHA512), op.Scribble), nil)
 				case "Bytes":
-					return scResult(o.hold("Bytes()", bin.Bytes()), nil)
+					return scResult(o.hold("Bytes()", bin.Bytes(), op.Scribble), nil)
 				case "Open":
 					b, err := io.ReadAll(bin.Open())
 					return scResult(b, err)
@@ -339,7 +351,7 @@ func (e *schedEngine) build(c scCfg, x *X, plane *Plane) (mk func() *scObject) {
 					for k, s := range sigs {
 						fmt.Fprintf(&b, "%d/%x/%x:", s.Length, s.Revision, s.CertType)
 						b.Write(s.Certificate)
-						o.hold(fmt.Sprintf("Signatures()[%d].Certificate", k), s.Certificate)
+						o.hold(fmt.Sprintf("Signatures()[%d].Certificate", k), s.Certificate, op.Scribble)
 					}
 					return scResult(b.Bytes(), err)
 				case "Verify":
@@ -397,7 +409,7 @@ func (e *schedEngine) build(c scCfg, x *X, plane *Plane) (mk func() *scObject) {
 				switch op.Op {
 				case "Bytes":
 					// a database, one of its lists and one of its entries are encoded in turn: three results to keep
-					r := o.hold("db.Bytes()", db.Bytes())
+					r := o.hold("db.Bytes()", db.Bytes(), op.Scribble)
 					if len(*db) > 0 {
 						o.hold("list.Bytes()", (*db)[len(*db)-1].Bytes())
 						if sg := (*db)[0].Signatures; len(sg) > 0 {
@@ -612,7 +624,7 @@ func (e *schedEngine) build(c scCfg, x *X, plane *Plane) (mk func() *scObject) {
 					upd.Marshal(&b)
 					return scOwnBuffer(&b)
 				case "Bytes":
-					return scResult(o.hold("update.Bytes()", upd.Bytes()), nil)
+					return scResult(o.hold("update.Bytes()", upd.Bytes(), op.Scribble), nil)
 				case "DescMarshal":
 					var b bytes.Buffer
 					desc.Marshal(&b)
